@@ -377,17 +377,27 @@ class ASTRewriter(ast.NodeTransformer):
                 isinstance(_sval, ast.Subscript)
                 and isinstance(_sval.slice, ast.Tuple)
                 and isinstance(arg.slice, ast.Constant)
+                and isinstance(arg.slice.value, int)
+                and 0 <= arg.slice.value < len(_sval.slice.elts)
             ):
-                return [
-                    ast.Subscript(
-                        value=ast.Subscript(
-                            value=ast.Name(id=arg.value.id, ctx=ast.Load()),
-                            slice=ast.Constant(value=arg.slice.value, kind=None),
-                        ),
-                        slice=ast.Constant(value=i, kind=None),
-                    )
-                    for i in range(len(_sval.slice.elts))
-                ]
+                # The elements are those of the selected element, not of the outer tuple
+                _eval = _sval.slice.elts[arg.slice.value]
+                if isinstance(_eval, ast.Subscript) and isinstance(
+                    _eval.slice, ast.Tuple
+                ):
+                    _eval = _eval.slice
+
+                if isinstance(_eval, ast.Tuple):
+                    return [
+                        ast.Subscript(
+                            value=ast.Subscript(
+                                value=ast.Name(id=arg.value.id, ctx=ast.Load()),
+                                slice=ast.Constant(value=arg.slice.value, kind=None),
+                            ),
+                            slice=ast.Constant(value=i, kind=None),
+                        )
+                        for i in range(len(_eval.elts))
+                    ]
         elif isinstance(arg, ast.Name):
             # If it's a name, is in env and is a Tuple, return elements
             if (
